@@ -1,3 +1,5 @@
+import NrDaemon.Props.Reviewed
+import NrDaemon.Gen.Skeleton
 import NrDaemon.Model.Lasp
 /-!
   C13 — security-policy handshake is fail-closed and most-secure-wins.
@@ -82,3 +84,18 @@ theorem C13_no_token_no_check (ap : AgentMap) (pre : CollMap) :
 /-! non-vacuity: a verifying pair and a failing pair -/
 example : verifyPolicies [("record_sql", ⟨true, true⟩)] [("record_sql", ⟨false, true⟩)] = true := by decide
 example : verifyPolicies [("record_sql", ⟨true, false⟩)] [("record_sql", ⟨false, true⟩)] = false := by decide
+
+
+/-! ## Ties to the current source: the functions transcribed by the model have not changed since they were reviewed (`Props/Reviewed.lean`) -/
+
+/-- **C13 (tie).**  `considerConnect`: the agent's policies reach the handshake untrimmed. -/
+theorem C13_consider_connect_source_tied : Gen.Skeleton.considerConnect = Reviewed.considerConnect := rfl
+
+/-- **C13 (tie).**  `connectApplication`: preconnect, verification, returned policies, payload policies, connect - in this order. -/
+theorem C13_connect_application_source_tied : Gen.Skeleton.connectApplication = Reviewed.connectApplication := rfl
+
+/-- **C13 (tie).**  `verifySecurityPolicies`: both directions of the verification. -/
+theorem C13_verify_source_tied : Gen.Skeleton.verifySecurityPolicies = Reviewed.verifySecurityPolicies := rfl
+
+/-- **C13 (tie).**  `addPoliciesToPayload`: supported policies only, enabled = conjunction. -/
+theorem C13_add_policies_source_tied : Gen.Skeleton.addPoliciesToPayload = Reviewed.addPoliciesToPayload := rfl
